@@ -540,13 +540,18 @@ func c12(r *Report) propMeta {
 	svc := "client/grpc/oracle/proof.proofServer.Proof"
 	r.Exists("proof-for-oracle-store", svc, CallEff("proof.GetMultiStoreProof"), 1)
 	r.Exists("iavl-path-of-result-key", svc, CallEff("types.ResultStoreKey"), 1)
+	r.Rule("C12.R5", "IAVL node header parsing: chained varint offsets")
+	r.VarintChainPkg("node-header", "client/grpc/oracle/proof.", 3)
+	gm := "client/grpc/oracle/proof.GetMerklePaths"
+	r.CondExists("side-by-prefix-length", gm, Cond{Op: "EQL", A: []string{"binop:+", "const:1", "call:binary.Varint"}, B: []string{"len", "field:InnerOp.Prefix"}, Want: false}, 1)
+	r.Exists("fields-in-order", gm, StoreEff("IAVLMerklePath.SubtreeHeight", "call:binary.Varint", "!slice"), 1)
 	return propMeta{
 		Decided: []string{
 			"R1 the Merkle path of the `oracle` leaf among the constant store names passed to NewKVStoreKeys (sorted, RFC-6962 split) has exactly the depth and left/right pattern GetMultiStoreProof hard-codes (Path[i].Prefix[1:] vs .Suffix), recomputed on every run: adding/removing/renaming a store that moves the leaf fails the check",
 			"R2 the five hashed header parts are contiguous, tree-aligned runs of cometbft Header.Hash's leaf list (read from the dependency source) and the uncovered leaves are exactly Height, Time, AppHash",
-			"R3 the literal bytes 34,10,18,42,50 equal (field<<3|2) for the field numbers in cometbft's CanonicalVote/CanonicalBlockID struct tags; 32 and 72 follow from the fixed sizes; only BlockIDFlagCommit votes are used and the recovered address must equal the vote's validator address",
+			"R5 IAVL node headers are parsed as a chain of varints (height, size, version), the k-th starting at the sum of all previous lengths; side decided by comparing the header length + 1 with the prefix length", "R3 the literal bytes 34,10,18,42,50 equal (field<<3|2) for the field numbers in cometbft's CanonicalVote/CanonicalBlockID struct tags; 32 and 72 follow from the fixed sizes; only BlockIDFlagCommit votes are used and the recovered address must equal the vote's validator address",
 		},
-		Undecided: []string{"IAVL inner-node prefix parsing over tree shapes (varint widths)", "signature recovery itself", "one-byte length prefixes holding for long chain ids / part-set totals >= 128"},
+		Undecided: []string{"IAVL proof values over all tree shapes beyond the varint-offset chain", "signature recovery itself", "one-byte length prefixes holding for long chain ids / part-set totals >= 128"},
 		Assume:    []string{"rootmulti commits exactly the mounted IAVL KV stores (transient and memory stores are excluded)", "cometbft source in the module cache is what the node runs"},
 	}
 }
